@@ -100,6 +100,8 @@ MC_Cases == Tuned \cup OwnLength \cup HugeCaps \cup EmptyBodies \cup Smallest \c
 \* the status byte in front of every kind of response, fitting and not, with and without previous
 \* contents in the buffer (C18: the numbers of Success and Other as emitted)
 StatusCases == EmptyBodies \cup Smallest \cup Planted
+               \cup (IF LB \in F THEN {[op |-> "encode2", tag |-> "status-after", resp |-> LbCfg(n), cap |-> 1024, stale |-> st] :
+                                          n \in {0, 1, 23, 24, 255, 256}, st \in {<< >>, <<6>>}} ELSE {})
                \cup {[op |-> "encode2", tag |-> "status-after", resp |-> r, cap |-> N, stale |-> st] :
                         r \in FullResponses, N \in {1, 2, 64, 600, 1024},
                         st \in {<<6>>, <<127>>, <<255>>, <<0, 161, 3, 8>>, <<0, 161, 3, 8, 0, 0, 0, 0, 0, 0, 0, 0, 0, 0, 0, 0, 0, 0, 0, 0>>}}
